@@ -22,7 +22,7 @@ ASSUMPTIONS = ["float rounding on non-dyadic inputs is outside the theorem (exac
 
 
 def gen_case(rng):
-    style = rng.choice(["ties", "neg", "spread", "plain", "tiny", "boundary"])
+    style = rng.choice(["ties", "neg", "spread", "plain", "tiny", "boundary", "intfrac"])
     if style == "boundary":
         T, K = rng.choice([(1, 1), (1, 3), (2, 1), (2, 2), (3, 2), (1, 6)])
     elif style == "tiny":
@@ -30,6 +30,8 @@ def gen_case(rng):
     else:
         T, K = rng.randint(2, 40), rng.randint(2, 6)
     def cost():
+        if style == "intfrac":
+            return Fraction(rng.randint(-20, 20))      # integer costs; the switching cost below is fractional
         if style == "ties":
             return Fraction(rng.randint(0, 2))
         if style == "neg":
@@ -39,8 +41,10 @@ def gen_case(rng):
             return Fraction(rng.randint(-1023, 1023)) * (Fraction(2) ** e)
         return Fraction(rng.randint(0, 4000), 2 ** rng.choice([0, 1, 4]))
     table = [[cost() for _ in range(K)] for _ in range(T)]
-    bstyle = rng.choice(["scalar", "vector", "zero", "vector0", "int"])
+    bstyle = rng.choice(["scalar", "vector", "zero", "vector0", "int"]) if style != "intfrac" else rng.choice(["scalar", "vector", "vector0"])
     def b():
+        if style == "intfrac":
+            return Fraction(rng.randint(1, 40), 8)
         return Fraction(rng.randint(0, 3000), 2 ** rng.choice([0, 2, 10])) if style != "ties" else Fraction(rng.randint(0, 2))
     if bstyle == "scalar":
         beta = ("scalar", b())
@@ -52,8 +56,14 @@ def gen_case(rng):
         beta = ("vector", [b() if rng.random() < 0.6 else Fraction(0) for _ in range(T)])
     else:
         beta = ("vector", [b() for _ in range(T)])
-    return {"table": [[str(x) for x in row] for row in table], "beta_kind": beta[0],
+    case = {"table": [[str(x) for x in row] for row in table], "beta_kind": beta[0],
             "beta": str(beta[1]) if beta[0] != "vector" else [str(x) for x in beta[1]], "style": style}
+    if all(x.denominator == 1 and abs(x) < 2 ** 31 for row in table for x in row) and rng.random() < 0.7:
+        # an integer-valued cost table handed over in an integer (or single-precision) dtype, with a switching cost
+        # that need not be an integer: the kernel's arithmetic must not inherit the table's dtype
+        fits32 = all(abs(x) < 2 ** 23 for row in table for x in row)
+        case["dtype"] = rng.choice(["int64", "int32", "float32"] if fits32 else ["int64"])
+    return case
 
 
 def total_cost(table, betas, labels):
@@ -131,6 +141,9 @@ def run(ctx):
         table = [[Fraction(x) for x in row] for row in c["table"]]
         T, K = len(table), len(table[0])
         arr = np.array([[float(x) for x in row] for row in table], dtype=np.float64)
+        if c.get("dtype"):
+            arr = arr.astype(c["dtype"])
+            ctx.count("table_dtype:" + c["dtype"])
         if c["beta_kind"] == "vector":
             betas = [Fraction(x) for x in c["beta"]]
             beta_arg = np.array([float(x) for x in betas], dtype=np.float64)
